@@ -35,7 +35,6 @@ structure DS where
   shield : Shield.State := default
   hasShield : Bool := false
   shieldOutside : Bool := false      -- coins of a denomination the shield model does not cover were seen
-  claimParams : ShieldD.ClaimParams := default
   -- C14 ghost ledger (from observations only)
   dep : List (Addr × Coins) := []
   ret : List (Addr × Coins) := []
@@ -74,7 +73,7 @@ def loadObs (ds : DS) (st : Json) : DS := Id.run do
   if J.has st "cvm" then ds := { ds with cvm := BankVmD.parseCvm (J.get st "cvm"), hasCvm := true }
   if J.has st "shield" then
     let j := J.get st "shield"
-    ds := { ds with shield := ShieldD.parseState j, hasShield := true, claimParams := ShieldD.parseClaimParams j,
+    ds := { ds with shield := ShieldD.parseState j, hasShield := true,
                     shieldOutside := ds.shieldOutside || ShieldD.outsideModel j }
   return ds
 
@@ -133,7 +132,7 @@ def applyMsg (ds : DS) (stake : Gov.StakeView) (w : MW) (m : Json) : Option (Exc
       let council := Gov.isCouncil ge w.c (J.strOf m "proposer")
       -- msg_server.go SubmitProposal: initial deposit, claim admission, handler dry run, proposal + deposit, lock
       if Gen.Gov.submitRefused (Coins.amountOf deposit "uctk") (Coins.amountOf w.g.params.minInitial "uctk") council then some (.error ⟨"gov:insufficient-initial-deposit"⟩)
-      else match ShieldD.claimAdmissible ds.claimParams w.sh ds.t holder pool purchase loss (Coins.amountOf deposit "uctk") with
+      else match Shield.claimAdmissible w.sh ds.t holder pool purchase loss (Coins.amountOf deposit "uctk") with
       | some x => some (.error ⟨"claim:" ++ x⟩)
       | none =>
         match Shield.createReimbursement { se with bondedAfter := fun _ => none } w.l w.sh w.g.nextId loss holder with
@@ -471,7 +470,7 @@ def handleTx (ds : DS) (j : Json) : IO DS := do
           ds := stat ds "mon.c05.claim_accepted"
           let holder := J.strOf m "contentProposer"
           let pool := (J.intOf m "pool").toNat; let purchase := (J.intOf m "purchase").toNat; let loss := J.intOf m "loss"
-          match ShieldD.claimAdmissible ds.claimParams pre.sh ds.t holder pool purchase loss (Coins.amountOf (J.coinsOf m "deposit") "uctk") with
+          match Shield.claimAdmissible pre.sh ds.t holder pool purchase loss (Coins.amountOf (J.coinsOf m "deposit") "uctk") with
           | some x => ds ← finding ds "monitor" "C05" "claim_admission" s!"accepted although {x}: {m.compress}"
           | none => pure ()
           for x in ShieldD.monClaimLock pre.sh ds.shield holder pool purchase loss do ds ← finding ds "monitor" "C05" "claim_lock_exact" x
